@@ -20,9 +20,12 @@ int sq_live;                  /* blocks obtained from the allocator / cache and 
 int sq_alloc_budget;          /* C16: number of allocations that still succeed (negative: unlimited) */
 /* ghost block tables, indexed by CBMC's object id of the block (DESIGN 3.3, data abstraction of the hidden alignment offset):
  * sq_blk_off[o]  the alignment offset the allocator recorded for block o (must accompany the block when it is given back)
- * sq_blk_lib[o]  1 iff block o came from the library's allocator (user-supplied buffers: 0) */
-unsigned char sq_blk_off[256];
-unsigned char sq_blk_lib[256];
+ * sq_blk_lib[o]  1 iff block o came from the library's allocator (user-supplied buffers: 0)
+ * The tables are immutable attributes of a block: no contract assigns them; an allocation contract *assumes* the attribute
+ * values of the fresh block (its object id is new, so no earlier constraint mentions that entry); harnesses set them for
+ * the blocks they create.  Giving a block back is modelled by `frees` (the object dies, is_freeable becomes false). */
+unsigned char sq_blk_off[1024];   /* jobs run with --object-bits 10 */
+unsigned char sq_blk_lib[1024];
 #define SQ_OBJ(p) __CPROVER_POINTER_OBJECT(p)
 
 #define SQ_MAXD SQUIDS_MAX_HILBERT_DIM
@@ -31,7 +34,7 @@ unsigned char sq_blk_lib[256];
 /* representation invariant, pure part (no pointer predicates) */
 #define SU_VALID_PURE(v) ( (v)->size==(v)->dim*(v)->dim && ((v)->dim==0 || (2<=(v)->dim && (v)->dim<=SQ_MAXD)) \
    && !((v)->isinit && (v)->isinit_d) \
-   && (((v)->isinit||(v)->isinit_d) ? ((v)->dim>=2) : ((v)->dim==0 && (v)->size==0 && (v)->components==NULL)) )
+   && (((v)->isinit||(v)->isinit_d) ? ((v)->dim>=2 || ((v)->isinit && (v)->dim==0)) : ((v)->dim==0 && (v)->size==0)) )   /* empty means empty (a copy of an empty vector leaves `components` indeterminate); assigning an empty vector to an owning one leaves an owning vector of dimension 0 */
 /* ownership part: an owning vector holds a live library block together with the offset recorded for it.
  * ABSTRACTION: in this model `components` points to the start of the usable block; the real block starts ptr_offset
  * doubles earlier.  alloc_aligned / deallocate_mem are verified against the concrete layout in their own jobs. */
@@ -41,7 +44,9 @@ unsigned char sq_blk_lib[256];
 #define SU_EXT_OK(v)  ( !(v)->isinit_d || (v)->components==NULL || (sq_blk_lib[SQ_OBJ((v)->components)]==0 && __CPROVER_rw_ok((v)->components, (v)->size*sizeof(double))) )
 #define SU_VALID(v)   ( SU_VALID_PURE(v) && SU_OWNS_OK(v) && SU_EXT_OK(v) )
 
+#define ALLOC_FRAME sq_thrown, sq_live, sq_alloc_budget
 #define SQ_PROPAGATE        do{ if(sq_thrown) return SQ_RET; }while(0)
+#define SQ_PROPAGATE_INIT   SQ_PROPAGATE   /* exception thrown by an initialiser (operator new[]) aborts the construction */
 #define SQ_LEDGER_OK        (sq_live>=0 && sq_live<1000)
 
 /* static void SU_vector::alloc_aligned(dim,size,components&,ptr_offset&): ABSTRACT CONTRACT.
@@ -51,17 +56,13 @@ __CPROVER_requires(dim<=SQ_MAXD)
 __CPROVER_requires(size<=SQUIDS_MAX_HILBERT_SIZE)
 __CPROVER_requires(__CPROVER_w_ok(components, sizeof(*components)) && __CPROVER_w_ok(ptr_offset, 1))
 __CPROVER_requires(sq_thrown==0 && SQ_LEDGER_OK)
-__CPROVER_assigns(*components, *ptr_offset, sq_thrown, sq_live, sq_alloc_budget, __CPROVER_object_whole(sq_blk_off), __CPROVER_object_whole(sq_blk_lib))
+__CPROVER_assigns(*components, *ptr_offset, sq_thrown, sq_live, sq_alloc_budget)
 __CPROVER_ensures(sq_thrown==0 || sq_thrown==2)
 __CPROVER_ensures(sq_thrown==2 ==> (*components==__CPROVER_old(*components) && *ptr_offset==__CPROVER_old(*ptr_offset) && sq_live==__CPROVER_old(sq_live)))
 __CPROVER_ensures(sq_thrown==2 ==> __CPROVER_old(sq_alloc_budget)==0)
 __CPROVER_ensures(sq_thrown==0 ==> (sq_live==__CPROVER_old(sq_live)+1 && *ptr_offset<=SQ_HEADROOM
                    && __CPROVER_is_fresh(*components, (size>0?size:1)*sizeof(double))
                    && sq_blk_lib[SQ_OBJ(*components)]==1 && sq_blk_off[SQ_OBJ(*components)]==*ptr_offset))
-/* the tables of all other blocks are unchanged: stated for the two ghost probes */
-__CPROVER_ensures(sq_thrown!=0 || SQ_OBJ(*components)==gk%256 || (sq_blk_lib[gk%256]==__CPROVER_old(sq_blk_lib[gk%256]) && sq_blk_off[gk%256]==__CPROVER_old(sq_blk_off[gk%256])))
-__CPROVER_ensures(sq_thrown!=0 || SQ_OBJ(*components)==gk2%256 || (sq_blk_lib[gk2%256]==__CPROVER_old(sq_blk_lib[gk2%256]) && sq_blk_off[gk2%256]==__CPROVER_old(sq_blk_off[gk2%256])))
-__CPROVER_ensures(sq_thrown==0 || (sq_blk_lib[gk%256]==__CPROVER_old(sq_blk_lib[gk%256]) && sq_blk_off[gk%256]==__CPROVER_old(sq_blk_off[gk%256])))
 ;
 /* void SU_vector::deallocate_mem(): ABSTRACT CONTRACT: gives the block back (to the cache or to delete[]); the offset handed
  * back with it must be the one recorded for the block, the block must be a live library block.
@@ -76,16 +77,14 @@ __CPROVER_assigns(sq_live)
 __CPROVER_frees(blk)
 __CPROVER_ensures(sq_live==__CPROVER_old(sq_live)-1)
 ;
-/* operator new[] (double): CONTRACT */
-double* sq_new_double(size_t n)
-__CPROVER_requires(sq_thrown==0 && n<=1024 && SQ_LEDGER_OK)
-__CPROVER_assigns(sq_thrown, sq_live, sq_alloc_budget, __CPROVER_object_whole(sq_blk_off), __CPROVER_object_whole(sq_blk_lib))
+/* operator new[] (double): CONTRACT, result through *out (`p = new double[n]`) */
+void sq_new_double_o(size_t n, double** out)
+__CPROVER_requires(sq_thrown==0 && n<=1024 && SQ_LEDGER_OK && __CPROVER_w_ok(out, sizeof(*out)))
+__CPROVER_assigns(*out, sq_thrown, sq_live, sq_alloc_budget)
 __CPROVER_ensures(sq_thrown==0 || sq_thrown==2)
-__CPROVER_ensures(sq_thrown==2 ==> (__CPROVER_return_value==NULL && sq_live==__CPROVER_old(sq_live) && __CPROVER_old(sq_alloc_budget)==0))
-__CPROVER_ensures(sq_thrown==0 ==> (sq_live==__CPROVER_old(sq_live)+1 && __CPROVER_is_fresh(__CPROVER_return_value, (n>0?n:1)*sizeof(double))
-                   && sq_blk_lib[SQ_OBJ(__CPROVER_return_value)]==1 && sq_blk_off[SQ_OBJ(__CPROVER_return_value)]==0))
-__CPROVER_ensures(sq_thrown!=0 || SQ_OBJ(__CPROVER_return_value)==gk%256 || (sq_blk_lib[gk%256]==__CPROVER_old(sq_blk_lib[gk%256]) && sq_blk_off[gk%256]==__CPROVER_old(sq_blk_off[gk%256])))
-__CPROVER_ensures(sq_thrown==0 || (sq_blk_lib[gk%256]==__CPROVER_old(sq_blk_lib[gk%256]) && sq_blk_off[gk%256]==__CPROVER_old(sq_blk_off[gk%256])))
+__CPROVER_ensures(sq_thrown==2 ==> (sq_live==__CPROVER_old(sq_live) && __CPROVER_old(sq_alloc_budget)==0))
+__CPROVER_ensures(sq_thrown==0 ==> (sq_live==__CPROVER_old(sq_live)+1 && __CPROVER_is_fresh(*out, (n>0?n:1)*sizeof(double))
+                   && sq_blk_lib[SQ_OBJ(*out)]==1 && sq_blk_off[SQ_OBJ(*out)]==0))
 ;
 /* operator delete[]: CONTRACT */
 void sq_delete(double* p)
@@ -95,22 +94,58 @@ __CPROVER_frees(p)
 __CPROVER_ensures(sq_live==__CPROVER_old(sq_live)-1)
 ;
 
-/* std::fill / std::copy on double ranges: ASSUMED contracts (libstdc++), ghost-index form; std::swap by its definition */
-void sq_fill(double* b, double* e, double v)
-__CPROVER_requires(__CPROVER_same_object(b,e) && b<=e && __CPROVER_w_ok(b, (size_t)(e-b)*sizeof(double)))
-__CPROVER_assigns(__CPROVER_object_from(b))
-__CPROVER_ensures(gk<(size_t)(e-b) ==> SQ_SAME(b[gk], v))
-__CPROVER_ensures(gk2<(size_t)(e-b) ==> SQ_SAME(b[gk2], v))
+/* std::fill(p,p+n,v) / std::copy(p,p+n,d) on double ranges: ASSUMED contracts (libstdc++), ghost-index form.  The extraction rule turns the
+ * iterator pair (p,p+n) into (p,n): an empty range of null pointers is legal C++ and must not be charged with pointer arithmetic on NULL. */
+void sq_filln(double* b, size_t n, double v)
+__CPROVER_requires(n==0 || __CPROVER_w_ok(b, n*sizeof(double)))
+__CPROVER_assigns(__CPROVER_object_upto(b, n*sizeof(double)))
+__CPROVER_ensures(gk<n ==> SQ_SAME(b[gk], v))
+__CPROVER_ensures(gk2<n ==> SQ_SAME(b[gk2], v))
 ;
-void sq_copy(const double* b, const double* e, double* d)
-__CPROVER_requires(__CPROVER_same_object(b,e) && b<=e && __CPROVER_r_ok(b, (size_t)(e-b)*sizeof(double)) && __CPROVER_w_ok(d, (size_t)(e-b)*sizeof(double)))
-__CPROVER_requires(!__CPROVER_same_object(b,d) || d<=b || d>=e)          /* std::copy: d not inside [b,e) */
-__CPROVER_assigns(__CPROVER_object_upto(d, (size_t)(e-b)*sizeof(double)))
-__CPROVER_ensures(gk<(size_t)(e-b) ==> SQ_SAME(d[gk], __CPROVER_old(b[gk<(size_t)(e-b)?gk:0])))
+void sq_copyn(const double* b, size_t n, double* d)
+__CPROVER_requires(n==0 || (__CPROVER_r_ok(b, n*sizeof(double)) && __CPROVER_w_ok(d, n*sizeof(double))))
+__CPROVER_requires(n==0 || !__CPROVER_same_object(b,d) || d==b)          /* disjoint objects, or a range copied onto itself (benign) */
+__CPROVER_assigns(d!=b: __CPROVER_object_upto(d, n*sizeof(double)))     /* copying a range onto itself changes nothing */
+__CPROVER_ensures(gk<n ==> SQ_SAME(d[gk], b[gk]))
 ;
-#define SQ_FILL(b,e,v) sq_fill((b),(e),(v))
-#define SQ_COPY(b,e,d) sq_copy((b),(e),(d))
 #define SQ_SWAP(a,b)   do{ __typeof__(a) t_=(a); (a)=(b); (b)=t_; }while(0)
+
+/* ---- contracts shared between the job that enforces them (suv_l1.c) and the jobs that use them as callee contracts (proxy_l1.c) ---- */
+/* SU_vector& operator=(const SU_vector& other).  Constructive form (usable as a callee contract: every pointer the caller may use
+ * afterwards is either unchanged -- not in the frame -- or delivered by is_fresh). */
+#define SU_ASSIGN_COPY_CONTRACT \
+__CPROVER_requires(__CPROVER_rw_ok(self, sizeof(*self)) && __CPROVER_r_ok(other, sizeof(*other)) && SU_VALID(self) && SU_VALID(other)) \
+__CPROVER_requires(sq_thrown==0 && SQ_LEDGER_OK && (self->isinit ==> sq_live>0)) \
+__CPROVER_assigns(ALLOC_FRAME, __CPROVER_object_upto(self->components, self->size*sizeof(double)); \
+                  self!=other && self->size!=other->size && !self->isinit_d: *self) \
+__CPROVER_frees(self!=other && self->isinit && self->size!=other->size: self->components) \
+__CPROVER_ensures(sq_thrown==0 || sq_thrown==1 || sq_thrown==2) \
+__CPROVER_ensures((sq_thrown==1) == (self!=other && self->isinit_d && self->size!=other->size)) \
+__CPROVER_ensures(sq_thrown==1 ==> sq_live==__CPROVER_old(sq_live)) \
+__CPROVER_ensures((self==other || __CPROVER_old(self->size)==other->size) ==> (sq_thrown==0 && sq_live==__CPROVER_old(sq_live))) \
+__CPROVER_ensures(sq_thrown==0 && self!=other && __CPROVER_old(self->size)!=other->size ==> (self->dim==other->dim && self->size==other->size \
+                   && self->isinit && !self->isinit_d && self->ptr_offset<=SQ_HEADROOM \
+                   && __CPROVER_is_fresh(self->components, (other->size>0?other->size:1)*sizeof(double)) \
+                   && sq_blk_lib[SQ_OBJ(self->components)]==1 && sq_blk_off[SQ_OBJ(self->components)]==self->ptr_offset \
+                   && sq_live==__CPROVER_old(sq_live)+(__CPROVER_old(self->isinit)?0:1))) \
+__CPROVER_ensures(sq_thrown==2 ==> (!self->isinit && !self->isinit_d && self->dim==0 && self->size==0 \
+                   && sq_live==__CPROVER_old(sq_live)-(__CPROVER_old(self->isinit)?1:0))) \
+__CPROVER_ensures(sq_thrown==0 && self!=other && self->size>0 && gk<self->size ==> SQ_SAME(self->components[gk], other->components[gk]))
+#define SU_CTOR_SIZED_CONTRACT \
+__CPROVER_requires(__CPROVER_w_ok(self, sizeof(*self)) && sq_thrown==0 && SQ_LEDGER_OK) \
+__CPROVER_assigns(*self, ALLOC_FRAME) \
+__CPROVER_ensures(sq_thrown==0 || sq_thrown==1 || sq_thrown==2) \
+__CPROVER_ensures(sq_thrown!=2 ==> ((sq_thrown==1) == (d==1 || d>SQ_MAXD))) \
+__CPROVER_ensures(sq_thrown!=0 ==> sq_live==__CPROVER_old(sq_live)) \
+__CPROVER_ensures(sq_thrown==0 ==> (self->dim==d && self->size==d*d && self->isinit && !self->isinit_d && sq_live==__CPROVER_old(sq_live)+1 && self->ptr_offset<=SQ_HEADROOM \
+                   && __CPROVER_is_fresh(self->components, (d*d>0?d*d:1)*sizeof(double)) \
+                   && sq_blk_lib[SQ_OBJ(self->components)]==1 && sq_blk_off[SQ_OBJ(self->components)]==self->ptr_offset)) \
+__CPROVER_ensures(sq_thrown==0 && gk<d*d ==> self->components[gk]==0.0)
+#define SU_DTOR_CONTRACT \
+__CPROVER_requires(__CPROVER_r_ok(self, sizeof(*self)) && SU_VALID(self) && SQ_LEDGER_OK && (self->isinit ==> sq_live>0)) \
+__CPROVER_assigns(sq_live) \
+__CPROVER_frees(self->isinit: self->components) \
+__CPROVER_ensures(sq_live==__CPROVER_old(sq_live)-(self->isinit?1:0))
 
 /* harness helper: an arbitrary vector satisfying the invariant (kind 0 empty / 1 owning / 2 externally backed) */
 static inline void sq_mk_valid(struct SU_vector* v, int kind, unsigned dim){
